@@ -139,6 +139,7 @@ def run_config(cfg, rec):
     rec.assume_note("widths > 0, rates > 0, scales > 0; exp/erf/erfcx uninterpreted with the instantiated identities "
                     "erfcx(x)=exp(x^2)(1-erf(x)), erf odd, exp(a)exp(b)=exp(a+b); sqrt2 symbol with s^2 = 2")
     core.Ctx.generic_models = False
+    core.Ctx.reuse_decisions = True  # the relational second evaluation repeats the kernel's branch conditions
     if cfg["kind"] == "closed":
         _run_closed(cfg, rec)
     else:
@@ -220,7 +221,7 @@ def _run_closed(cfg, rec):
         ax = function_axioms(ctx)
         for n_, g, fp in items:
             rec.check(ctx, n_, g, fp, wit, extra=ax, timeout_ms=20000)
-        rec.sample({"pc": [str(c)[:90] for c in ctx.pc][:3], "entry": str(zreal(matrix[0, 0]))[:160]})
+        rec.want_sample() and rec.sample({"pc": [str(c)[:90] for c in ctx.pc][:3], "entry": str(zreal(matrix[0, 0]))[:160]})
     rec.validate("closed", {}, {"ok": True})
 
 
@@ -311,7 +312,7 @@ def _run_plumbing(cfg, rec):
             items.append(("matrix at global index i = index independent matrix with that index's effective centre and width",
                           core.cross_eq(zreal(matrix[i, 0, 0]), zreal(ref[i][0, 0])), "irf:index-plumbing"))
         rec.check_all(ctx, items, wit)
-        rec.sample({"pc": [str(c)[:90] for c in ctx.pc][:3], "entry": str(zreal(matrix[0, 0, 0]))[:200]})
+        rec.want_sample() and rec.sample({"pc": [str(c)[:90] for c in ctx.pc][:3], "entry": str(zreal(matrix[0, 0, 0]))[:200]})
     rec.validate("plumbing", {}, {"ok": True})
 
 
